@@ -261,8 +261,17 @@ def run(analysis: Analysis, tier: str) -> RuleResult:
     for summ in common.pmap(analysis, c12.save_worker, [(e, (analysis.versions[-1], "serial", "sync")) for e in persist.EXTS]):
         c12.analyse_save_rows(tmp, summ)
     for o in tmp.obs:
-        if "written from empty" in o.construct or "sensor map is what is dumped" in o.construct:
+        if "written from empty" in o.construct or "sensor map is what is dumped" in o.construct or "every string can be written" in o.construct:
             res.add("C11-R5", o.construct, o.ok, o.where, o.detail, o.witness)
+    # R4: pickle writes the whole instance dict, the transient hold queue included (it is only reset on load):
+    # whatever is put into Sensor.queue must be plain picklable data - the encoded line, not an object that
+    # drags the message, the gateway and the const module into the pickle (shared with C07-R2)
+    from . import c07
+
+    for summ in common.pmap(analysis, c07.router_worker, [(analysis.versions[-1], "serial", "sync")]):
+        held = [r for r in summ["rows"] if r["what"] == "holds the message"]
+        okq = bool(held) and all(r["ok"] for r in held)
+        res.add("C11-R4", "__init__:Gateway._route_message / what is put into the node's hold queue is the encoded line (a str): the pickle of a node with withheld replies stays writable", okq, "mysensors/__init__.py", "queue.append(msg.encode())" if okq else (held[0]["why"] if held else "no holding path"), next((r["witness"] for r in held if not r["ok"]), None))
     res.need("C11-R5", 2, "save-path obligations")
     res.need("C11-R1", 5, "field agreement obligations")
     res.units = {"classes": ["sensor:Sensor", "sensor:ChildSensor", "persistence:MySensorsJSONEncoder", "persistence:MySensorsJSONDecoder"], "source_digest": analysis.p.digest()}
